@@ -151,6 +151,12 @@ static inline bool fm_rename_lemmas(const FM *m){
   if (FM_SIZE(m) >= 2 && FM_RIDX(m, 0) == FM_RIDX(m, 1) && !(lmul(FM_COEF(m, 0) + FM_COEF(m, 1), VAL(FM_RIDX(m, 0))) == p[0] + p[1])) return false;
 #endif
   return true; }
+/* r has exactly the terms of a with negated coefficients (same variables: index and type), well-formed variable objects */
+static inline bool fm_is_neg(const FM *r, const FM *a){
+  if (FM_SIZE(r) != FM_SIZE(a)) return false;
+  for (unsigned i = 0; i < NT; i++) if (i < FM_SIZE(a) && !(var_ok(&FM_START(r)[i].f0) && FM_IDX(r, i) == FM_IDX(a, i) && FM_COEF(r, i) == -FM_COEF(a, i) &&
+      FM_START(r)[i].f0.f2.f0 == FM_START(a)[i].f0.f2.f0 && FM_START(r)[i].f0.f2.f1 == FM_START(a)[i].f0.f2.f1)) return false;
+  return true; }
 /* the same terms (syntactic equality of the term sequences) */
 static inline bool fm_same(const FM *a, const FM *b){
   if (FM_SIZE(a) != FM_SIZE(b)) return false;
@@ -193,5 +199,55 @@ static inline bool le_oknz(const LE *e, uint64_t n, i128 z){ return zin(LE_CST(e
 static inline bool lc_okz(const LC *c, i128 z){ return c->f0 <= 3 && le_okz(&c->f1, z); }
 #define lc_ok(c) lc_okz(c, ZB)
 #define LC_HOLDS(c) k_holds((c)->f0, LE_VAL(&(c)->f1))
+
+/* ---- constraint systems: linear_constraint_system = { f0 = _csts : std::vector<linear_constraint> { start, finish,
+ * end_of_storage } }.  A system denotes the CONJUNCTION of its constraints (the empty system is true).
+ * BOUNDED: input systems have at most NC constraints, results at most SYS_MAXC = NC + 1. */
+typedef struct S_class_ikos__linear_constraint_system SYS;
+#ifndef NC
+#define NC 2
+#endif
+#define SYS_MAXC (NC + 1)
+#define SYS_B(s) ((s)->f0.f0.f0.f0.f0)
+#define SYS_E(s) ((s)->f0.f0.f0.f0.f1)
+#define SYS_C(s) ((s)->f0.f0.f0.f0.f2)
+#define SYS_N(s) (SYS_B(s) == 0 ? (uint64_t)0 : (uint64_t)(SYS_E(s) - SYS_B(s)))
+#define SYS_AT(s, i) (&SYS_B(s)[i])
+/* at most n constraints, each well formed with constants / coefficients inside (-z, z) */
+static inline bool sys_okz(const SYS *s, uint64_t n, i128 z){
+  if (!(SYS_N(s) <= n && SYS_N(s) <= SYS_MAXC)) return false;
+  for (unsigned i = 0; i < SYS_MAXC; i++) if (i < SYS_N(s) && !lc_okz(SYS_AT(s, i), z)) return false;
+  return true; }
+#define sys_ok(s) sys_okz(s, NC, ZB)
+/* the conjunction of the constraints holds under the valuation */
+static inline bool sys_holds(const SYS *s){
+  bool h = true;
+  for (unsigned i = 0; i < SYS_MAXC; i++) if (i < SYS_N(s) && !LC_HOLDS(SYS_AT(s, i))) h = false;
+  return h; }
+/* every constraint is a constant constraint (no term) */
+static inline bool sys_all_const(const SYS *s){
+  for (unsigned i = 0; i < SYS_MAXC; i++) if (i < SYS_N(s) && !LE_CONST(&SYS_AT(s, i)->f1)) return false;
+  return true; }
+/* lemma instances for the evaluation of NEGATED input expressions (normalize builds -e): (-c) * v = -(c * v) for every
+ * term of every constraint of the input system */
+static inline bool sys_neg_lemmas(const SYS *s){
+  for (unsigned i = 0; i < SYS_MAXC; i++) if (i < SYS_N(s) && !NEG_LEMMAS(&SYS_AT(s, i)->f1)) return false;
+  return true; }
+#ifdef LINCST_CONCRETE
+/* products of all terms in range (evaluation of COPIED input expressions) */
+static inline bool sys_range_lemmas(const SYS *s){
+  for (unsigned i = 0; i < SYS_MAXC; i++) if (i < SYS_N(s) && !fm_range_lemmas(MAPP(SYS_AT(s, i)->f1))) return false;
+  return true; }
+/* syntactic equality of constraints (what linear_constraint::equal decides): same kind, same constant, same terms */
+static inline bool lc_same(const LC *a, const LC *b){ return a->f0 == b->f0 && LE_CST(&a->f1) == LE_CST(&b->f1) && fm_same(MAPP(a->f1), MAPP(b->f1)); }
+/* one of the first n constraints of s is syntactically equal to c */
+static inline bool sys_find(const SYS *s, uint64_t n, const LC *c){
+  for (unsigned i = 0; i < SYS_MAXC; i++) if (i < n && lc_same(SYS_AT(s, i), c)) return true;
+  return false; }
+/* d is a copy of c: same kind and constant, the term map is shared */
+static inline bool lc_copy(const LC *d, const LC *c){ return d->f0 == c->f0 && MAPP(d->f1) == MAPP(c->f1) && LE_CST(&d->f1) == LE_CST(&c->f1); }
+#else
+#define sys_range_lemmas(s) 1
+#endif
 #endif
 #endif
